@@ -8,6 +8,10 @@ import (
 	"verifharness/sim"
 )
 
+// udpBoundaryMTUs: the ends of the supported MTU range and their neighbours, used by the first cases of
+// every run (quick and thorough).
+var udpBoundaryMTUs = []int{1280, 1281, 1499, 1500, 1400}
+
 // C02 — UDP transport: reliable, ordered, exactly-once stream over a faulty network.
 func init() {
 	core.Register("C02", &core.Scenario{
@@ -25,6 +29,9 @@ func init() {
 					budget = 2 << 20
 				}
 				cases[i] = genUDPCase(c.Rand, budget, c.Thorough() && i%4 == 0)
+				if i < len(udpBoundaryMTUs) {
+					cases[i].MTU = udpBoundaryMTUs[i] // every boundary MTU on every run, before the random stream
+				}
 			}
 			// special cases (also in the quick tier; each costs a few seconds of protocol timers)
 			many := make([]int, 5000)
@@ -98,6 +105,9 @@ func init() {
 			cases := make([]udpCase, n)
 			for i := range cases {
 				cases[i] = genUDPCase(c.Rand, 60000, c.Thorough() && i%4 == 0)
+				if i < len(udpBoundaryMTUs) {
+					cases[i].MTU = udpBoundaryMTUs[i]
+				}
 				// more loss and reordering than C02's mix: retransmissions and out-of-order delivery are the point
 				if i%2 == 0 {
 					cases[i].Faults.Loss, cases[i].Faults.Reorder, cases[i].Faults.Dup = 0.08, 0.15, 0.05
